@@ -7,13 +7,13 @@ from vlib.par import pmap, with_timeout, JobTimeout
 PROPERTY = 'C18'
 LEVEL = 'other'
 TARGETS = [('mapping_items', 'graphtage.MappingNode.items'), ('mapping_items', 'graphtage.FixedKeyDictNode.items'),
-           ('to_obj', 'graphtage.ListNode.to_obj'), ('to_obj', 'plist.PLISTNode.to_obj')]
-TRUSTED = ['MappingNode.__iter__ against a ghost item list', 'to_obj() of a child is a function of the child (induction hypothesis)', 'to_obj() of a mapping is {k.to_obj(): v.to_obj() for k, v in items()} '
-           '(dict comprehension, not under contract)']
+           ('to_obj', 'graphtage.ListNode.to_obj'), ('to_obj', 'plist.PLISTNode.to_obj'),
+           ('to_obj', 'graphtage.MappingNode.to_obj')]
+TRUSTED = ['MappingNode.__iter__ against a ghost item list', 'to_obj() of a child is a function of the child (induction hypothesis)', 'plain keys of a mapping are pairwise distinct (precondition of MappingNode.to_obj; a dict is modelled as its item sequence)']
 ASSUMPTIONS = []
 EXPLANATION = (
     "Deductive: ListNode.to_obj() is the list of its children's to_obj() values, same length and order (the real comprehension, "
-    "children's values by induction hypothesis), PLISTNode.to_obj() is its root's.  MappingNode.items() yields (pair.key, pair.value) for every pair in iteration order, proved for the "
+    "children's values by induction hypothesis), PLISTNode.to_obj() is its root's, MappingNode.to_obj() (the real dict comprehension over items()) maps the plain value of every key to the plain value of its value, in item order, for pairwise distinct plain keys.  MappingNode.items() yields (pair.key, pair.value) for every pair in iteration order, proved for the "
     "base class and for the override FixedKeyDictNode.items - the step on which to_obj() of every mapping rests. "
     "json.build_tree / Builder.build_tree dispatch on the dynamic type of arbitrary Python objects and walk object graphs "
     "with identity-based ancestor checks; that is outside the VC generator (no dynamically typed values, no object "
